@@ -440,6 +440,11 @@ func resolveAggregates(
 						orderBy,
 						fields,
 					)
+					if hostSelect, isSelect := host.(*Select); hasHost && isSelect && hostSelect.SkipResolve {
+						// The join was added for a filter only; an aggregate reads every related
+						// document, not just the one the filter matched.
+						hostSelect.SkipResolve = false
+					}
 				}
 			}
 
